@@ -109,6 +109,8 @@ structure JBlock where
   previous : Nat
   from_ : Nat
   to : Nat
+  hash : String := ""
+  redigest : String := ""
 
 structure JState where
   /-- "account/asset" ↦ balance (input − output) -/
@@ -133,7 +135,7 @@ def parseState (j : Json) : Except String JState := do
             postings := ps, revertsTx := natFieldD t "revertsTx" } : JTx))
   let mkLog := fun (l : Json) => JLog.mk (natFieldD l "id") (optStrField l "type") (optStrField l "ik") (optStrField l "hash") (optStrField l "recomputed") (natFieldD l "txid")
   let logs := (← arrField j "logs").map mkLog
-  let mkBlock := fun (b : Json) => JBlock.mk (natFieldD b "id") (natFieldD b "previous") (natFieldD b "from") (natFieldD b "to")
+  let mkBlock := fun (b : Json) => JBlock.mk (natFieldD b "id") (natFieldD b "previous") (natFieldD b "from") (natFieldD b "to") (optStrField b "hash") (optStrField b "redigest")
   let blocks := (← arrField j "blocks").map mkBlock
   pure { vols := vols, txs := txs, logs := logs, blocks := blocks, sysState := optStrField j "sysState" }
 
@@ -404,8 +406,12 @@ def stateDiff (n : Names) (w : World) (l : Nat) (sync : Bool) (st : JState) : Li
     let r := st.vols.lookup name
     if n.ledgers.length > 1 then none   -- pair ids are per case, not per ledger: compared only for single-ledger cases
     else if m = r then none else some s!"balance {name}: model {m} real {r}")
-  let blks := (w.blocks.filter (·.l = l)).map (fun b => (b.from_, b.to))
-  let d9 := if blks = (sortBy (·.id) st.blocks).map (fun b => (b.from_, b.to)) then [] else [s!"blocks: model {blks} real {(sortBy (·.id) st.blocks).map (fun b => (b.from_, b.to))}"]
+  -- blocks: ranges, and which of them are stale (hash computed without a log of the range: the model's
+  -- ghost `ids` vs. the real re-digest)
+  let comIds := logs.map (·.id)
+  let blks := (w.blocks.filter (·.l = l)).map (fun b => (b.from_, b.to, decide (b.ids = comIds.filter (fun i => b.from_ < i && i ≤ b.to))))
+  let rblks := (sortBy (·.id) st.blocks).map (fun b => (b.from_, b.to, decide (b.hash = b.redigest)))
+  let d9 := if blks = rblks then [] else [s!"blocks (from, to, complete): model {blks} real {rblks}"]
   let inUse := (w.state l).com = some true
   let d10 := if st.sysState = "" || decide inUse = decide (st.sysState = "in-use") then [] else [s!"ledger state: model in-use={decide inUse} real {st.sysState}"]
   d1 ++ d2 ++ d3 ++ d4 ++ d5 ++ d6 ++ d7 ++ d8 ++ d9 ++ d10
@@ -727,9 +733,16 @@ def propC34 (c : Case) : PropRes :=
     let covered := fun (id : Nat) => (bs.filter (fun b => b.from_ < id && id ≤ b.to)).length
     match st.logs.find? (fun g => covered g.id ≠ 1) with
     | some g =>
-      { ok := false, sig := "C34:late-committing-lower-log-id-skipped-by-create_blocks",
-        note := s!"{l.name}: log {g.id} is in {covered g.id} blocks; blocks {bs.map (fun b => (b.from_, b.to))}", tags := ["log-skipped"] }
-    | none => { tags := [if bs.isEmpty then "no-blocks" else "blocks-partition"] }))
+      { ok := false, sig := "C34:log-outside-every-block-range",
+        note := s!"{l.name}: log {g.id} is in {covered g.id} blocks; blocks {bs.map (fun b => (b.from_, b.to))}", tags := ["log-uncovered"] }
+    | none =>
+      -- each block hash = the documented digest over the previous block hash and the logs of its range
+      match bs.find? (fun b => b.hash ≠ b.redigest) with
+      | some b =>
+        { ok := false, sig := "C34:late-committing-lower-log-id-skipped-by-create_blocks:block-hash-does-not-cover-it",
+          note := s!"{l.name}: block ({b.from_}, {b.to}] stores {b.hash.take 16}…, the digest over the committed logs of its range is {b.redigest.take 16}… (a log of the range committed after the block was built)",
+          tags := ["log-skipped"] }
+      | none => { tags := [if bs.isEmpty then "no-blocks" else "blocks-partition"] }))
 
 def propFor (c : Case) : PropRes :=
   match c.workload with
